@@ -30,6 +30,28 @@ type teeConn struct {
 	mu       sync.Mutex
 	sent     []byte // client -> server (what the client wrote)
 	received []byte // server -> client (what the client read)
+	rdl, wdl time.Time // the read / write deadline in effect on the connection
+}
+
+func (t *teeConn) SetDeadline(d time.Time) error {
+	t.mu.Lock()
+	t.rdl, t.wdl = d, d
+	t.mu.Unlock()
+	return t.Conn.SetDeadline(d)
+}
+
+func (t *teeConn) SetReadDeadline(d time.Time) error {
+	t.mu.Lock()
+	t.rdl = d
+	t.mu.Unlock()
+	return t.Conn.SetReadDeadline(d)
+}
+
+func (t *teeConn) SetWriteDeadline(d time.Time) error {
+	t.mu.Lock()
+	t.wdl = d
+	t.mu.Unlock()
+	return t.Conn.SetWriteDeadline(d)
 }
 
 func (t *teeConn) Read(p []byte) (int, error) {
@@ -244,9 +266,22 @@ func runSession(m *mon.M, r *vrand.Rand, cfg sessionCfg, rep map[string]interfac
 			tee = &teeConn{Conn: c}
 			return tee, nil
 		}}
+	if r.Bool() {
+		d.HandshakeTimeout = 30 * time.Second // generous: only its being set matters
+		m.Count("dials_with_a_handshake_timeout", 1)
+	}
 	c, resp, err := d.Dial("ws"+strings.TrimPrefix(srv.URL, "http"), nil)
 	if err != nil {
 		viol("c13:dial-failed", "Dial: %v", err)
+		return
+	}
+	// the handshake's deadline must be gone when Dial returns: a session may stay idle longer than the handshake timeout,
+	// and a read (or write) deadline left armed on the connection would end it then
+	tee.mu.Lock()
+	rdl, wdl := tee.rdl, tee.wdl
+	tee.mu.Unlock()
+	if !rdl.IsZero() || !wdl.IsZero() {
+		viol("c13:handshake-deadline-left-armed", "after Dial (HandshakeTimeout %v) the connection still has a deadline: read %v, write %v", d.HandshakeTimeout, rdl, wdl)
 		return
 	}
 	c.SetCompressionLevel(cfg.cliLevel)
